@@ -685,14 +685,15 @@ impl PreferenceManager {
         };
 
         // don't do an update if the value hasn't changed
+        // Note: a stored value that is not a string (e.g., a number in a user's prefs file) is never the same as 'value'
         let mut is_user_pref = true;
         if let Some(pref_value) = self.api_prefs.prefs.get(key) {
-            if pref_value.as_str().unwrap() != value {
+            if pref_value.as_str() != Some(value) {
                 is_user_pref = false;
                 self.reset_files_from_preference_change(key, value)?;
             }
         } else if let Some(pref_value) = self.user_prefs.prefs.get(key) {
-            if pref_value.as_str().unwrap() != value {
+            if pref_value.as_str() != Some(value) {
                 self.reset_files_from_preference_change(key, value)?;
             }
         } else {
@@ -745,6 +746,12 @@ impl PreferenceManager {
             _ => (),
         }
         return Ok( () );
+    }
+
+    /// Returns true if `key` names a preference whose (current) value is a boolean.
+    pub fn is_boolean_pref(&self, key: &str) -> bool {
+        let value = self.api_prefs.prefs.get(key).or_else(|| self.user_prefs.prefs.get(key));
+        return matches!(value, Some(Yaml::Boolean(_)));
     }
 
     /// Set the number-valued preference.
